@@ -57,6 +57,21 @@ func chanOrigins(w *core.World, v ssa.Value) []ssa.Value {
 				}
 			}
 			switch x := o.(type) {
+			case *ssa.Parameter:
+				// parameter of a named function that is started as a goroutine: the channel the go statement passes
+				found := false
+				pf := x.Parent()
+				for _, sp := range goSitesOf(w, pf) {
+					for i, q := range pf.Params {
+						if q == x && i < len(sp.Call.Args) {
+							found = true
+							rec(sp.Call.Args[i], d+1)
+						}
+					}
+				}
+				if !found {
+					out = append(out, o)
+				}
 			case *ssa.FreeVar:
 				fn := x.Parent()
 				idx := -1
@@ -397,6 +412,15 @@ func buffersPerSender(w *core.World, s *ssa.Send) (bool, string) {
 			}
 			spawn = sp[0]
 		}
+		if g.Parent() == nil {
+			// a named function started with 'go f(...)' by the function that made the channel
+			gs := goSitesOf(w, g)
+			if len(gs) == 1 && gs[0].Parent() == mk.Parent() {
+				spawn = gs[0]
+			} else if len(gs) > 1 {
+				return false, "the sending goroutine has several spawn sites"
+			}
+		}
 	}
 	if spawn == nil {
 		return false, "sender is not a goroutine started by the function that made the channel"
@@ -507,4 +531,22 @@ func closeSitesExclusive(a, b ssa.Instruction) bool {
 		return true
 	}
 	return check(b, fa)
+}
+
+// goSitesOf lists the go statements of the repository that start the named function fn.
+func goSitesOf(w *core.World, fn *ssa.Function) []*ssa.Go {
+	if fn == nil || fn.Parent() != nil {
+		return nil
+	}
+	var out []*ssa.Go
+	for _, f := range w.RepoFns {
+		for _, b := range f.Blocks {
+			for _, in := range b.Instrs {
+				if g, ok := in.(*ssa.Go); ok && g.Call.StaticCallee() == fn {
+					out = append(out, g)
+				}
+			}
+		}
+	}
+	return out
 }
